@@ -1132,6 +1132,27 @@ fn shape_goal() -> BoxedStrategy<SG> {
         .boxed()
 }
 
+/// Every atom of the vocabulary (plus more symbol-char atoms) as the value that ends the last
+/// answer: bare, as the right operand of an infix operator, as the operand of a prefix operator.
+pub fn final_atom_cases() -> Vec<ShapeCase> {
+    let extra = ["&", "/", ">", "=..", "\\=", "..", "...", "#.", "a#", "#a", "**", "@>=", "+-", "~~", "<--", "$"];
+    let mut atoms: Vec<&str> = ATOMS.to_vec();
+    for e in extra {
+        if !atoms.contains(&e) {
+            atoms.push(e);
+        }
+    }
+    let mut out = vec![];
+    for a in atoms {
+        out.push(ShapeCase { goal: SG::Eq(0, atom(a)), scheme: 0 });
+        out.push(ShapeCase { goal: SG::And(Box::new(SG::Eq(1, int(1))), Box::new(SG::Eq(0, atom(a)))), scheme: 0 });
+        out.push(ShapeCase { goal: SG::Eq(0, cmp("-", vec![atom("a"), atom(a)])), scheme: 1 });
+        out.push(ShapeCase { goal: SG::Eq(0, cmp("\\+", vec![atom(a)])), scheme: 3 });
+        out.push(ShapeCase { goal: SG::Eq(0, cmp("f", vec![atom(a)])), scheme: 4 });
+    }
+    out
+}
+
 pub fn shape_strategy() -> BoxedStrategy<ShapeCase> {
     (shape_goal(), 0u8..6).prop_map(|(goal, scheme)| ShapeCase { goal, scheme }).boxed()
 }
@@ -1408,6 +1429,11 @@ impl Prop for C29 {
         }
         if only.is_empty() || only == "shape" {
             d.run("shape", 1, n_shape, 1000, shape_strategy(), &mk_env, &check_shape);
+        }
+        if only.is_empty() || only == "shape" {
+            // enumerated: every atom of the vocabulary at the very end of the last answer
+            let mine: Vec<ShapeCase> = final_atom_cases().into_iter().enumerate().filter(|(i, _)| *i as u32 % cfg.nshards == cfg.shard).map(|(_, c)| c).collect();
+            d.run_list("shape", mine, 1000, &mk_env, &check_shape);
         }
         if only.is_empty() || only == "binary" {
             d.run("binary", 2, n_bin, 50, bin_strategy(), &mk_env, &check_bin);
